@@ -24,19 +24,21 @@ type fspec struct {
 	name      string // Coq name suffix; default: fn with '.' -> '_' (+ "_" + frag)
 	mode      string // func | frag
 	// frag selection
-	from, to string             // prefixes of the (whitespace-normalised) source text of the first / last statement taken, searched at any depth; to=="" means just `from`
-	outs     []string           // variables whose values are the result of the fragment
-	slice    bool               // keep only the statements that assign an out variable (program slice)
-	logStmts bool               // simple statements outside the subset are recorded by their source text in the trace variable tr
-	atoms    bool               // sub-expressions outside the subset become parameters (named by their source text)
-	hints    map[string]string  // source text or identifier -> type
-	ext      map[string]extSpec // callee text -> rendering
-	writer   string             // name of an io.Writer parameter modelled as an infallible byte buffer
-	prop     string             // property the tie belongs to (documentation only)
-	auto     bool               // attempted automatically (every function of an anchor file)
-	lit      string             // translate the function literal (inside fn) whose first statement starts with this text
-	once     []string           // opaque expressions evaluated exactly once on every path, before anything they mention is assigned (checked by the table author, stated in a note)
-	nilEmpty bool               // `x == nil` on a slice is read as `len(x) == 0` (stated in a note)
+	from, to  string             // prefixes of the (whitespace-normalised) source text of the first / last statement taken, searched at any depth; to=="" means just `from`
+	outs      []string           // variables whose values are the result of the fragment
+	slice     bool               // keep only the statements that assign an out variable (program slice)
+	logStmts  bool               // simple statements outside the subset are recorded by their source text in the trace variable tr
+	atoms     bool               // sub-expressions outside the subset become parameters (named by their source text)
+	hints     map[string]string  // source text or identifier -> type
+	ext       map[string]extSpec // callee text -> rendering
+	writer    string             // name of an io.Writer parameter modelled as an infallible byte buffer
+	prop      string             // property the tie belongs to (documentation only)
+	auto      bool               // attempted automatically (every function of an anchor file)
+	lit       string             // translate the function literal (inside fn) whose first statement starts with this text
+	once      []string           // opaque expressions evaluated exactly once on every path, before anything they mention is assigned (checked by the table author, stated in a note)
+	fieldVars bool               // selector texts that have a type in hints are variables of the fragment (fields of opaque values that the fragment assigns)
+	fieldObs  bool               // methods of opaque values held in struct fields are observers (phase-2 entries; older entries keep them as a_ parameters)
+	nilEmpty  bool               // `x == nil` on a slice is read as `len(x) == 0` (stated in a note)
 }
 
 type param struct {
